@@ -188,8 +188,45 @@ def check_(case):
     return A
 
 
+def check_long(n, kind, sd):
+    """Twin builds of a LONG dataset (fast paths for large lengths), equally seeded: identical orders, also for the
+    copy and for a second pair built later in the same process."""
+    import lazy_dataset
+
+    def rng():
+        return np.random.RandomState(sd) if kind == 'rs' else np.random.default_rng(sd)
+
+    def build(stage):
+        ds = lazy_dataset.new(list(range(n)))
+        if stage == 'once':
+            return ds.shuffle(False, rng=rng())
+        if stage == 'tile':
+            return ds.shuffle(False, rng=rng())[:n // 2]  # a selection of a one-time shuffle
+        return ds.shuffle(True, rng=rng())
+    for stage in ('once', 'reshuffle', 'tile'):
+        orders = []
+        for twin in range(3):
+            d = build(stage)
+            if twin == 2:
+                d = d.copy()
+            orders.append([list(d) for _ in range(2)])
+        if orders[0] != orders[1] or orders[0] != orders[2]:
+            k = next(i for i in range(len(orders[0][0])) if len({o[0][i] for o in orders}) > 1 or
+                     len({o[1][i] for o in orders}) > 1) if orders[0][0] != orders[1][0] or orders[0][0] != orders[2][0] \
+                else None
+            raise Violation(f'twin-differs|long-{stage}',
+                            f'n={n} generator={kind} seed={sd} stage={stage}: three identically built, equally seeded '
+                            f'pipelines (the third one copied) iterate in different orders; first epochs start '
+                            f'{[o[0][:8] for o in orders]} (first difference at position {k})')
+        if sorted(orders[0][0]) != list(range(n)) and stage != 'tile':
+            raise Violation(f'twin-not-a-permutation|long-{stage}', f'n={n} generator={kind} seed={sd}')
+
+
 def replay(case):
     progcheck.setup_process()
+    if case.get('mode') == 'long':
+        check_long(case['n'], case['kind'], case['seed'])
+        return
     if case.get('mode') == 'vars':
         check_vars(case['cls'])
         check_freeze_propagation()
@@ -477,6 +514,21 @@ def run_shard(tier, idx, nshards, rec, known):
             if not known.match(v.sig):
                 o.violation = ({'mode': 'vars', 'cls': v.sig.split('|')[1].split('.')[0] if 'copy' in v.sig
                                 else None}, v.sig, v.detail)
+        outs.append(o)
+    if idx == 1 % nshards:
+        o = Outcome()
+        for n in (1000, 1024, 1025, 4096, 70000):
+            for kind in ('rs', 'gen'):
+                case = {'mode': 'long', 'n': n, 'kind': kind, 'seed': 3}
+                try:
+                    check_long(n, kind, 3)
+                except Violation as v:
+                    if not known.match(v.sig):
+                        o.violation = (case, v.sig, v.detail)
+                        break
+                rec.case(case, True, ['long-twin'], size=n)
+            if o.violation:
+                break
         outs.append(o)
 
     def one(case):
